@@ -686,6 +686,8 @@ Proof.
   - inversion Hst. subst. split; [exact Ha|]. intros [].
   - inversion Hst. subst. split; [exact Ha|]. intros [].
   - inversion Hst. subst. split; [exact Ha|]. intros [].
+  - inversion Hst. subst. split; [exact Ha|]. intros _. left. reflexivity.
+  - inversion Hst. subst. split; [exact Ha|]. intros _. left. reflexivity.
 Qed.
 
 Lemma step_agree c s o : wf c -> Agree c s -> Agree c (fst (step c s o)).
@@ -1185,14 +1187,117 @@ Proof.
   destruct (step c s o) as [s' r]. cbn [length]. rewrite IH. reflexivity.
 Qed.
 
+(* ---- the grid with its property layers: the layers live beside the grid state and never touch it ---- *)
+Lemma is_layer_op_dec (o : op) : (exists l, o = LayerOp l) \/ ~ (exists l, o = LayerOp l).
+Proof. destruct o; try (right; intros [l H]; discriminate). left. eexists. reflexivity. Qed.
+
+Lemma lstep_grid c k s L o : fst (fst (lstep c k (s, L) o)) = fst (step c s o).
+Proof.
+  destruct (is_layer_op_dec o) as [[l ->]|Hn].
+  - destruct l; cbn [lstep step fst];
+      match goal with |- context [if ?b then _ else _] => destruct b; reflexivity end.
+  - destruct o; try (exfalso; apply Hn; eexists; reflexivity); cbn [lstep fst snd];
+      match goal with |- context [step ?c ?s ?o] => destruct (step c s o) as [s' r]; reflexivity end.
+Qed.
+
+Definition is_layer_op (o : op) : bool := match o with LayerOp _ => true | _ => false end.
+
+(* a grid call leaves every layer as it was and returns what the layer-free step returns *)
+Lemma lstep_grid_op c k s L o :
+  is_layer_op o = false -> lstep c k (s, L) o = ((fst (step c s o), L), snd (step c s o)).
+Proof.
+  destruct o; cbn [is_layer_op]; try discriminate; intros _; cbn [lstep fst snd];
+    match goal with |- context [step ?c ?s ?o] => destruct (step c s o) as [s' r]; reflexivity end.
+Qed.
+
+(* a layer call leaves the grid state as it was (literally) *)
+Lemma lstep_layer_op c k s L l : fst (fst (lstep c k (s, L) (LayerOp l))) = s.
+Proof.
+  destruct l; cbn [lstep]; match goal with |- context [if ?b then _ else _] => destruct b; reflexivity end.
+Qed.
+
+Lemma lrun_grid c k ops : forall s L, fst (lrun c k (s, L) ops) = run c s ops.
+Proof.
+  induction ops as [|o t IH]; intros s L; cbn [lrun run]; [reflexivity|].
+  destruct (lstep c k (s, L) o) as [[s' L'] r] eqn:E. cbn [fst].
+  rewrite IH. f_equal. pose proof (lstep_grid c k s L o) as H. rewrite E in H. exact H.
+Qed.
+
+(* C08_agree for the layered grid: any history of grid calls and layer writes, any number of layers *)
+Lemma agree_layered_history c k ops : wf c -> Agree c (fst (lrun c k (init, linit) ops)).
+Proof. intros Hwf. rewrite lrun_grid. apply run_agree. exact Hwf. Qed.
+
+(* the layers after a history depend on the layer calls only *)
+Fixpoint layer_ops (ops : list op) : list op :=
+  match ops with
+  | [] => []
+  | o :: t => if is_layer_op o then o :: layer_ops t else layer_ops t
+  end.
+
+Lemma lstep_layers_only c k s s2 L o :
+  snd (fst (lstep c k (s, L) o)) = snd (fst (lstep c k (s2, L) o)).
+Proof.
+  destruct (is_layer_op_dec o) as [[l ->]|Hn].
+  - destruct l; cbn [lstep]; match goal with |- context [if ?b then _ else _] => destruct b; reflexivity end.
+  - destruct o; try (exfalso; apply Hn; eexists; reflexivity); cbn [lstep fst snd];
+      match goal with |- context [step ?c s ?o] => destruct (step c s o) as [s' r]; destruct (step c s2 o) as [s2' r2]; reflexivity end.
+Qed.
+
+Lemma lrun_layers c k ops : forall s L,
+  snd (lrun c k (s, L) ops) = snd (lrun c k (init, L) (layer_ops ops)).
+Proof.
+  induction ops as [|o t IH]; intros s L; cbn [lrun layer_ops]; [reflexivity|].
+  destruct (is_layer_op o) eqn:El.
+  - cbn [lrun].
+    destruct (lstep c k (s, L) o) as [[s1 L1] r1] eqn:E1. destruct (lstep c k (init, L) o) as [[s2 L2] r2] eqn:E2.
+    cbn [fst]. pose proof (lstep_layers_only c k s init L o) as H. rewrite E1, E2 in H. cbn [fst snd] in H. subst L2.
+    rewrite (IH s1 L1). destruct o; try discriminate.
+    pose proof (lstep_layer_op c k init L l) as H2. rewrite E2 in H2. cbn [fst] in H2. subst s2. reflexivity.
+  - rewrite (lstep_grid_op c k s L o El). cbn [fst]. apply IH.
+Qed.
+
+Lemma layers_never_interfere c k :
+  (forall ops s L, fst (lrun c k (s, L) ops) = run c s ops) /\
+  (forall s L o, is_layer_op o = false -> lstep c k (s, L) o = ((fst (step c s o), L), snd (step c s o))) /\
+  (forall s L l, fst (fst (lstep c k (s, L) (LayerOp l))) = s) /\
+  (forall ops s L, snd (lrun c k (s, L) ops) = snd (lrun c k (init, L) (layer_ops ops))).
+Proof.
+  split; [exact (lrun_grid c k)|]. split; [exact (lstep_grid_op c k)|].
+  split; [exact (lstep_layer_op c k)|exact (lrun_layers c k)].
+Qed.
+
+Lemma lrun_obs_nth_from c n k ops : forall sl i o,
+  nth_error ops i = Some o ->
+  nth_error (lrun_obs c n k sl ops) i =
+    Some (let sr := lstep c k (lrun c k sl (firstn i ops)) o in
+          obs_res (snd sr) ++ (-8) :: obs_state c n (fst (fst sr)) ++ (-9) :: obs_layers c k (snd (fst sr))).
+Proof.
+  induction ops as [|o' t IH]; intros sl i o Hi.
+  - destruct i; discriminate.
+  - destruct i as [|i].
+    + cbn in Hi. inversion Hi. subst o'. cbn [lrun_obs firstn lrun].
+      destruct (lstep c k sl o) as [sl' r]. reflexivity.
+    + cbn [nth_error] in Hi. cbn [lrun_obs firstn lrun].
+      destruct (lstep c k sl o') as [sl' r] eqn:E. cbn [nth_error fst].
+      rewrite (IH sl' i o Hi). reflexivity.
+Qed.
+
+Lemma lrun_obs_length c n k ops : forall sl, length (lrun_obs c n k sl ops) = length ops.
+Proof.
+  induction ops as [|o t IH]; intros sl; cbn [lrun_obs length]; [reflexivity|].
+  destruct (lstep c k sl o) as [sl' r]. cbn [length]. rewrite IH. reflexivity.
+Qed.
+
 Lemma run_case_is_step k i o :
   nth_error (k_ops k) i = Some o ->
   length (run_case k) = length (k_ops k) /\
   nth_error (run_case k) i =
-    Some (let sr := step (k_cfg k) (run (k_cfg k) init (firstn i (k_ops k))) o in
-          obs_res (snd sr) ++ (-8) :: obs_state (k_cfg k) (k_n k) (fst sr)).
+    Some (let sr := lstep (k_cfg k) (k_layers k) (lrun (k_cfg k) (k_layers k) (init, linit) (firstn i (k_ops k))) o in
+          obs_res (snd sr) ++ (-8) :: obs_state (k_cfg k) (k_n k) (fst (fst sr))
+            ++ (-9) :: obs_layers (k_cfg k) (k_layers k) (snd (fst sr))) /\
+  fst (lrun (k_cfg k) (k_layers k) (init, linit) (firstn i (k_ops k))) = run (k_cfg k) init (firstn i (k_ops k)).
 Proof.
-  intros H. unfold run_case. split; [apply run_obs_length|apply run_obs_nth_from; exact H].
+  intros H. unfold run_case. split; [apply lrun_obs_length|]. split; [apply lrun_obs_nth_from; exact H|apply lrun_grid].
 Qed.
 
 (* ================================================================== the unpatched mover *)
